@@ -86,6 +86,41 @@ def oracle(ctx, r, stats):
         ctx.violation("depth-positive-but-safepoint-at-0", "a safepoint was counted at depth 0 although the run started and stayed at depth > 0", rep)
 
 
+FEATURES = ["fn:@no_gc", "fn:normal", "fn:nested", "fn:lambda", "fn:captures", "fn:leaf-return", "fn:leaf-trailing-value", "fn:empty-body",
+            "deco:@inline+@no_gc", "deco:@inline_always+@no_gc", "deco:@no_gc+@inline", "deco:@no_gc+@inline_always",
+            "stmt:for", "stmt:while", "stmt:break", "stmt:continue", "stmt:if-else", "stmt:return-atom", "stmt:return-safepoint",
+            "stmt:return-call", "stmt:return-failing", "stmt:failing", "stmt:alloc-native", "stmt:alloc-array", "safepoint:alloc()", "safepoint:string+",
+            "run:ok", "run:error-outside-region", "run:error-inside-region", "run:safepoint-in-region", "run:host-depth>0", "run:host-depth>64",
+            "opt:0", "opt:1", "opt:2", "opt:3", "run:nested-region-depth>=2"]
+
+
+def audit(r, feat):
+    """feature counts of one run (skeleton text + the harness interpreter's expectation)"""
+    sk = r["skel"]
+    def bump(k, c=True):
+        if c:
+            feat[k] += 1
+    bump("fn:@no_gc", "(fn nogc" in sk); bump("fn:normal", "(fn gc" in sk)
+    bump("fn:nested", re.search(r"\(fn (?:nogc|gc) \d+ ", sk) is not None); bump("fn:lambda", " lam" in sk); bump("fn:captures", "+c" in sk)
+    bump("fn:leaf-return", "leafret" in sk); bump("fn:leaf-trailing-value", "leafimp" in sk)
+    bump("fn:empty-body", re.search(r"\(fn (?:nogc|gc) -?\d+ body(?:\+c)?(?:@\d)? \)", sk) is not None)
+    for k, d in (("deco:@inline+@no_gc", 1), ("deco:@inline_always+@no_gc", 2), ("deco:@no_gc+@inline", 3), ("deco:@no_gc+@inline_always", 4)):
+        bump(k, re.search(r"\(fn nogc -?\d+ \S*@%d " % d, sk) is not None)
+    bump("stmt:for", "(for " in sk); bump("stmt:while", "(while " in sk); bump("stmt:break", "brk" in sk); bump("stmt:continue", "cont" in sk)
+    bump("stmt:if-else", re.search(r"\(if \S+(?: \d+\))? \([^()]*(?:\([^()]*\)[^()]*)*\) \([^)]", sk) is not None)
+    bump("stmt:return-atom", "(ret atom" in sk); bump("stmt:return-safepoint", "(ret safe" in sk); bump("stmt:return-call", "(ret (call" in sk)
+    bump("stmt:return-failing", "(ret fail" in sk); bump("stmt:failing", "(x fail)" in sk)
+    bump("stmt:alloc-native", "atom1" in sk); bump("stmt:alloc-array", "atom2" in sk)
+    bump("safepoint:alloc()", "safe0" in sk); bump("safepoint:string+", "safe1" in sk)
+    e = r["e0"]
+    bump("run:ok", e[0] == 0); bump("run:safepoint-in-region", e[4] > 0)
+    bump("run:error-outside-region", e[0] == 1 and r["obs"][0] == 1 and "nogc" not in sk)
+    bump("run:error-inside-region", e[0] == 1 and "nogc" in sk)
+    bump("run:host-depth>0", r["d0"] > 0); bump("run:host-depth>64", r["d0"] > 64)
+    bump("opt:%d" % r["opt"]) if r["opt"] in (0, 1, 2, 3) else None
+    bump("run:nested-region-depth>=2", r["obs"][3] > 0 and sk.count("(fn nogc") >= 2)
+
+
 def correspond(ctx, rows, tag):
     cases, idx = [], []
     for k, r in enumerate(rows):
@@ -122,7 +157,7 @@ def run(ctx):
         "the emission model is the compiler: checked by the trace tie below (generated programs x -O0..-O3 x REPL sessions)",
         "only the typed pipeline (run_with_vm_and_opt -> compile_typed) is exercised; the untyped Compiler::compile path has the same shape but is not tied",
     ]
-    proved = ctx.prove("C13", extracted=["NoGcConsts"])
+    proved = ctx.prove("C13", extracted=["NoGcConsts", "GcRootFields"])
     if ctx.tier == "thorough" and proved:
         ctx.coqchk("C13")
     ok, out = vlib.coq_make(["Base/CaseCheck.vo", "Model/NoGcObs.vo"])
@@ -131,7 +166,7 @@ def run(ctx):
         ctx.log(out[-2000:])
         return
     profiles = ["dev"] if ctx.tier == "quick" else ["dev", "release"]
-    sessions = 1200 if ctx.tier == "quick" else 12000
+    sessions = 1200 if ctx.tier == "quick" else 30000
     stats = {"foreign": 0}
     total, distinct, tied = 0, set(), 0
     corpus = sorted(glob.glob(os.path.join(vlib.VERIF, "corpus", "C13", "*.sx")))
@@ -143,6 +178,7 @@ def run(ctx):
             open(p, "w").write(rp["skeleton"] + "\n")
             corpus, sessions = [p], 0
     dist = {"generated": 0, "corpus": 0}
+    feat = {k: 0 for k in FEATURES}
     for prof in profiles:
         ok, paths, log = vlib.harness_build(["hx_nogc"], profile=prof)
         if not ok:
@@ -169,6 +205,7 @@ def run(ctx):
         rows = [r for r in rows if "bad" not in r]
         total += len(rows)
         for r in rows:
+            audit(r, feat)
             dist["corpus" if r["sid"].startswith("corpus") else "generated"] += 1
             if r["e0"][2] > r["e0"][2] - r["e0"][4] or r["e0"][0] != 0:
                 distinct.add((r["skel"], r["opt"], r["d0"]))
@@ -176,12 +213,15 @@ def run(ctx):
         tied += correspond(ctx, rows, "c13" + prof)
         ctx.add_samples([{"session": r["sid"], "input": r["input"], "opt": r["opt"], "skeleton": r["skel"], "observed": r["obs"]}
                          for r in rows[:2] + rows[len(rows) // 2: len(rows) // 2 + 2]])
+    ctx.cov["input_distribution"] = {"runs": dist, "features": feat}
+    starved = [k for k, v in feat.items() if v < (5 if ctx.tier == "quick" else 50) and not k.startswith("outcome:")]
+    if starved and sessions:
+        ctx.broken.append("generator audit C13: starved feature classes " + ", ".join(starved))
     ctx.cov["evaluations"] = total
     ctx.cov["distinct_nontrivial"] = len(distinct)
     ctx.cov["model_evaluations"] = tied
     ctx.cov["foreign_failures"] = stats
-    ctx.cov["input_distribution"] = {
-        "runs": dist,
+    ctx.cov["input_distribution"].update({
         "text": "REPL sessions of 1-4 inputs on one VM after a fixed prelude; each input = 1-5 functions (each @no_gc with p=1/2; 1/4 nested "
                 "fn or lambda inside an earlier one; 1/6 two-parameter leaf `a + b` with or without `return`) + top-level statements; "
                 "bodies from {alloc/free, string +, guarded and unguarded calls incl. recursion, if/else, for, while, break, continue, "
@@ -189,7 +229,7 @@ def run(ctx):
                 "-O0..-O3; unrestricted (the three former defect classes -- safepoint in a return expression, inlined @no_gc leaf, error inside "
                 "an open region -- are repaired and part of the stream); runs ended early by a defect of another property "
                 "(undefined variable after nested functions, type confusion) are counted as foreign_failures and only checked for depth/collection",
-    }
+    })
     ctx.cov["rule"] = ("per run: counters of the GC hook with a collection forced at every safepoint; collections at depth>0 = 0; "
                        "safepoints at depth>0 = safepoints inside a source-level @no_gc region (harness interpreter) when the run starts at depth 0; "
                        "vm.no_gc_depth() after = before; model (Coq, vm_compute) = observation on [class, depth after, safepoints, at depth>0, "
